@@ -24,6 +24,13 @@ def mutants_of_line(line):
     for a, b in ((' <= ', ' < '), (' < ', ' <= '), (' >= ', ' > '), (' > ', ' >= '), (' == ', ' != '), (' != ', ' == ')):
         if a in code and 'template' not in code and 'operator' not in code and '->' not in code.split(a)[0][-3:]:
             yield 'rel:%s->%s' % (a.strip(), b.strip()), s.replace(a, b, 1) + eol
+    for a, b in ((' & ', ' | '), (' | ', ' & '), (' << ', ' >> '), (' >> ', ' << '), (' ^ ', ' & ')):
+        if a in code and 'template' not in code and 'operator' not in code and '<<=' not in code and 'std::c' not in code:
+            yield 'bit:%s->%s' % (a.strip(), b.strip()), s.replace(a, b, 1) + eol
+    if re.search(r'~\w', code) and 'operator' not in code and '~T' not in code and not re.search(r'~\w+\(\)', code): yield 'bit:drop~', re.sub(r'~(\w)', r'\1', s, 1) + eol
+    if re.search(r'\bstd::move\((\w+)\)', code): yield 'move->copy', re.sub(r'\bstd::move\((\w+)\)', r'\1', s, 1) + eol
+    if re.search(r'compare_exchange_(weak|strong)\(', code) and code.strip().startswith(('if (', 'while (', '} while (')) is False and code.strip().endswith(';'):
+        pass
     if ' && ' in code: yield 'logic:&&->||', s.replace(' && ', ' || ', 1) + eol
     if ' || ' in code: yield 'logic:||->&&', s.replace(' || ', ' && ', 1) + eol
     m = re.search(r'\bif \((.*)\) \{\s*$', code)
